@@ -15,7 +15,7 @@ fn rel_arity(r: Rel) -> usize {
     match r {
         Rel::Member | Rel::Member1 | Rel::Permute | Rel::First | Rel::Rest => 2,
         Rel::Append | Rel::Rember | Rel::ConsR => 3,
-        Rel::Empty => 1,
+        Rel::Empty | Rel::Distinct => 1,
         Rel::Always | Rel::Never | Rel::Succeed | Rel::Fail => 0,
     }
 }
